@@ -76,6 +76,19 @@ def step (n : Node) (op : List String) : Node × String :=
           | some (n', some c) => (n', s!"ok {c}")
       else (n, "bad-op")
     | none => (n, "bad-op")
+  | ["hs", p, c] =>
+    match Driver.parseNat p, Driver.parseNat c with
+    | some p, some c =>
+      if p < nPeer then
+        match n.fwd p with
+        | none => (n, "unknown")
+        | some a =>
+          if n.busyAddr a then (n, "busy") else
+          match n.handshake p c with
+          | none => (n, "unknown")
+          | some n' => (n', "ok")
+      else (n, "bad-op")
+    | _, _ => (n, "bad-op")
   | ["lastsent", p] =>
     match Driver.parseNat p with
     | some p =>
